@@ -258,7 +258,8 @@ MONITOR_PROPS = {
     "ClobberedDestination": ["C16"],
     "QuiescentDangling": ["C06"],
     "QuiescentSnap": ["C06"],
-    "LoserWroteIntoWinner": ["C07"],
+    "WroteIntoOthersBand": ["C07"],
+    "TwoWinners": ["C07"],
     "ApathTable": ["C11", "C12"],
     "WalkOrder": ["C11"],
     "ExcludeBackup": ["C15"],
